@@ -27,8 +27,9 @@ Counter-witnesses `tmp_distinct_counter`, `tmp_aliases_final_counter`; `tmp_dist
 import Cascette.Proofs.Path
 import Cascette.Proofs.CacheKeys
 import Cascette.Proofs.DiskFs
+import Cascette.Proofs.KeysTie
 namespace Cascette.Props.C20
-open Cascette.Model.Path Cascette.Model.CacheKeys Cascette.Model.DiskFs
+open Cascette.Model.Path Cascette.Model.CacheKeys Cascette.Model.DiskFs Cascette.Model.KeysExt
 open Cascette.Proofs.Path Cascette.Proofs.CacheKeys
 
 /-! ### typed keys' `as_cache_key` -/
@@ -551,6 +552,214 @@ theorem index_file_name_single (bucket version : Nat) :
   · exact (hexEncode_chars _ '/' hm).2.2 rfl
   · revert hm; decide
 
+/-! ## Extension: every public constructor, the memoised key text, `format_cache_key`,
+`RangeDownloader::download_archive_content`, cold `remove`, segment / index-temp names
+(Model/KeysExt).  The tie of all text builders to the Rust source is Proofs/KeysTie (audited in
+Audit/C20 next to these). -/
+
+/-! ### every public constructor of key.rs -/
+
+/-- two different constructor calls (different constructor or different arguments) never store the
+same field values: the 18 public constructors of the ten key types partition the key values. -/
+theorem ctor_key_injective (c1 c2 : Ctor) (h : c1.key = c2.key) : c1 = c2 := by
+  cases c1 <;> cases c2 <;> simp_all [Ctor.key]
+
+/-- and every key value is built by one of them (`Ctor.ofKey` names the call). -/
+theorem ctor_key_surjective (k : Key) : (Ctor.ofKey k).key = k := by
+  unfold Ctor.ofKey
+  split <;> rfl
+
+/-- constructor call → `as_cache_key` text is injective for ':'-free text arguments: across all 18
+constructors, all argument values (`u8/u32/u64` over all of `Nat`). -/
+theorem ctor_cache_key_injective (c1 c2 : Ctor) (h1 : colonFree c1.key) (h2 : colonFree c2.key)
+    (h : cacheKey c1.key = cacheKey c2.key) : c1 = c2 :=
+  ctor_key_injective c1 c2 (cacheKey_inj _ _ h1 h2 h)
+
+/-- constructor call → file: two calls with well-formed arguments that end up in the same file
+(any root, any hashed layout) are the same call with the same arguments. -/
+theorem ctor_paths_injective_wf (root : APath) (levels hash1 hash2 : Nat) (c1 c2 : Ctor)
+    (hr : dotdot ∉ root) (h1 : wfKey c1.key = true) (h2 : wfKey c2.key = true)
+    (h : normalize (diskPath root (subDirs levels hash1) (cacheKey c1.key)) =
+         normalize (diskPath root (subDirs levels hash2) (cacheKey c2.key))) : c1 = c2 :=
+  ctor_key_injective c1 c2 (paths_injective_wf_hashed root levels hash1 hash2 _ _ hr h1 h2 h)
+
+/-- ⟂ the hypothesis is needed, at constructor level (the witness noted by the C08/C11 reviewers):
+`RibbitKey::new("b:c", "a")` and `RibbitKey::with_product("c", "a", "b")` print "ribbit:a:b:c". -/
+theorem ctor_colon_counter :
+    cacheKey (Ctor.ribbitNew ['b', ':', 'c'] ['a']).key =
+      cacheKey (Ctor.ribbitWithProduct ['c'] ['a'] ['b']).key ∧
+    Ctor.ribbitNew ['b', ':', 'c'] ['a'] ≠ Ctor.ribbitWithProduct ['c'] ['a'] ['b'] := by decide
+
+/-! ### the memoised text behind `as_cache_key`
+
+Full-strength statement, FALSE of the tree (finding stale-key-text-after-field-write): for every
+key value `m` obtained from a constructor by any sequence of `as_cache_key`, `clone` and
+assignments to its public fields,
+
+    theorem memo_text_is_key_text (m : Memo) : m.asCacheKey.1 = cacheKey m.key
+
+Counter-witness `memo_stale_counter`; `memo_fresh` is what holds (no assignment after the first
+`as_cache_key`). -/
+
+/-- for a key value whose memo is empty or up to date — every value returned by a constructor
+(`memo_new_fresh`), and `as_cache_key` / `clone` keep it that way — `as_cache_key` returns the
+text of the current fields. -/
+theorem memo_fresh (m : Memo) (h : Memo.fresh m) :
+    m.asCacheKey.1 = cacheKey m.key ∧ Memo.fresh m.asCacheKey.2 ∧ m.asCacheKey.2.key = m.key := by
+  unfold Memo.asCacheKey
+  rcases h with h | h
+  · rw [h]; exact ⟨rfl, Or.inr rfl, rfl⟩
+  · rw [h]; exact ⟨rfl, Or.inr h, rfl⟩
+
+/-- every constructor returns such a value. -/
+theorem memo_new_fresh (c : Ctor) : Memo.fresh (Memo.new c) := Or.inl rfl
+
+/-- ⟂ the fields are public: after `k.as_cache_key(); k.region = "eu"` the value equals
+`RibbitKey::new("a", "eu")` (`PartialEq` compares the fields) but still prints — and is stored
+under — "ribbit:us:a", the file of `RibbitKey::new("a", "us")`. -/
+theorem memo_stale_counter :
+    let m0 := Memo.new (.ribbitNew ['a'] ['u', 's'])
+    let m1 := m0.asCacheKey.2.setFields (.ribbit ['a'] ['e', 'u'] none)
+    m1.key = (Memo.new (.ribbitNew ['a'] ['e', 'u'])).key ∧
+    m1.asCacheKey.1 = cacheKey (.ribbit ['a'] ['u', 's'] none) ∧
+    m1.asCacheKey.1 ≠ cacheKey m1.key := by decide
+
+/-! ### `cascette_protocol::format_cache_key` -/
+
+/-- `format_cache_key(prefix, endpoint)` is injective for ':'-free prefixes (any endpoint). -/
+theorem proto_cache_key_injective (p1 p2 e1 e2 : Str) (h1 : ':' ∉ p1) (h2 : ':' ∉ p2)
+    (h : protoCacheKey p1 e1 = protoCacheKey p2 e2) : p1 = p2 ∧ e1 = e2 := by
+  unfold protoCacheKey at h
+  have a := segsBy_append_sep ':' p1 e1
+  have b := segsBy_append_sep ':' p2 e2
+  rw [h, b, segsBy_of_not_mem ':' p1 h1, segsBy_of_not_mem ':' p2 h2] at a
+  simp only [List.cons_append, List.nil_append, List.cons.injEq] at a
+  exact ⟨a.1.symm, (segsBy_inj ':' _ _ a.2).symm⟩
+
+/-- ⟂ with a ':' in the prefix two different pairs print the same key. -/
+theorem proto_cache_key_colon_counter :
+    protoCacheKey ['a', ':', 'b'] ['c'] = protoCacheKey ['a'] ['b', ':', 'c'] := by decide
+
+/-! ### `RangeDownloader::download_archive_content` (cdn/range.rs) -/
+
+/-- after the `fix:` no archive name of any length or content makes the URL builder panic: a
+name that is not ≥ 4 ASCII hex digits is `InvalidArchiveName`, every other name gives
+`https://{host}/{path}[/{product_path}]/data/{name[..2]}/{name[2..4]}/{name}`. -/
+theorem archive_content_no_panic (host path : Str) (ppath : Option Str) (name : Str) :
+    archiveContentUrl host path ppath name ≠ .panic ∧
+    (archiveKeyOk name = false → archiveContentUrl host path ppath name = .invalidKey) ∧
+    (archiveKeyOk name = true → archiveContentUrl host path ppath name =
+      .ok (sHttps ++ [':', '/', '/'] ++ host ++ '/' ::
+        joinSep '/' ([path] ++ optMap id ppath ++ [sData, name.take 2, (name.drop 2).take 2, name]))) := by
+  by_cases hok : archiveKeyOk name = true
+  · have hok' := hok
+    unfold archiveKeyOk at hok'
+    simp only [Bool.and_eq_true, decide_eq_true_eq] at hok'
+    have hascii : ∀ c ∈ name, c.utf8Size = 1 := fun c hc =>
+      (isAsciiHexDigit_facts c (List.all_eq_true.mp hok'.2 c hc)).1
+    have hlen : 4 ≤ name.length := by rw [← utf8Len_ascii name hascii]; exact hok'.1
+    have hs := slice24_ascii name hascii hlen
+    simp [archiveContentUrl, archiveContentTail, hs, hok]
+  · simp [archiveContentUrl, hok]
+
+/-- ⟂ the code before the fix sliced the name unchecked: three bytes, the empty name, or a
+two-byte character across offset 2 panic. -/
+theorem archive_content_pinned_counter :
+    archiveContentUrlPinned ['h'] ['p'] none ['a', 'b', 'c'] = .panic ∧
+    archiveContentUrlPinned ['h'] ['p'] none [] = .panic ∧
+    archiveContentUrlPinned ['h'] ['p'] (some ['w']) ['a', 'é', 'b'] = .panic ∧
+    archiveContentUrl ['h'] ['p'] none ['a', 'b', 'c'] = .invalidKey ∧
+    archiveContentUrl ['h'] ['p'] (some ['w']) ['a', 'é', 'b'] = .invalidKey := by decide
+
+/-! ### `DiskCache::remove` of a key that is not indexed -/
+
+/-- for every file-system state, root, layout and key text that is relative, has no ".." segment
+and a component of its own, the file a cold `remove` deletes lies below the root. -/
+theorem remove_confined (fs : Fs) (root sub : APath) (key : Str)
+    (hr : dotdot ∉ root) (hsub : dotdot ∉ sub)
+    (habs : isAbs key = false) (hk : dotdot ∉ segs key) (hne : comps key ≠ []) :
+    ∀ loc, removeCold fs root sub key = some loc → root <+: loc :=
+  (Cascette.Proofs.DiskFs.put_get_confined fs root sub key hr hsub habs hk hne).2.2
+
+/-- in particular for every well-formed typed key. -/
+theorem remove_confined_wf (fs : Fs) (root sub : APath) (k : Key)
+    (hr : dotdot ∉ root) (hsub : dotdot ∉ sub) (h : wfKey k = true) :
+    ∀ loc, removeCold fs root sub (cacheKey k) = some loc → root <+: loc :=
+  (put_get_confined_wf fs root sub k hr hsub h).2.2
+
+/-- ⟂ without the hypotheses (findings delete-escape-disk-*): root /p/r, a file /p/s outside —
+`remove("../s")` and, on a hashed layout, `remove("/p/s")` delete it. -/
+theorem remove_counter :
+    removeCold ⟨[[], [['p']], [['p'], ['r']]], [[['p'], ['s']]]⟩ [['p'], ['r']] [] ['.', '.', '/', 's']
+      = some [['p'], ['s']] ∧
+    removeCold ⟨[[], [['p']], [['p'], ['r']]], [[['p'], ['s']]]⟩ [['p'], ['r']] [['0', '0']] ['/', 'p', '/', 's']
+      = some [['p'], ['s']] := by decide
+
+/-! ### fixed-format names: `segment_data_path`, the index temporary file -/
+
+/-- `segment_data_path`: one component "data.NNN…" below the directory, for every index. -/
+theorem segment_data_path_confined (base : APath) (idx : Nat) (hb : dotdot ∉ base) :
+    confined base (segmentDataPath base idx) ∧
+    ∃ n, segmentDataPath base idx = base ++ [n] ∧ '/' ∉ n ∧ n ≠ dotdot ∧ n ≠ dot := by
+  have hsl : '/' ∉ sData ++ '.' :: pad3 idx := by
+    intro hm
+    simp only [List.mem_append, List.mem_cons, pad3, List.mem_replicate] at hm
+    rcases hm with hm | hm | ⟨_, hm⟩ | hm
+    · revert hm; decide
+    · revert hm; decide
+    · revert hm; decide
+    · exact slash_not_mem_dec idx hm
+  have hdd : sData ++ '.' :: pad3 idx ≠ dotdot := by simp [sData, dotdot]
+  have hd : sData ++ '.' :: pad3 idx ≠ dot := by simp [sData, dot]
+  refine ⟨?_, _, rfl, hsl, hdd, hd⟩
+  unfold segmentDataPath
+  apply confined_append base _ hb
+  simpa using hdd.symm
+
+/-- the temporary file of `IndexManager::save_index` (`with_extension("tmp")` of
+`{bucket:02x}{version:08x}.idx`) is `{bucket:02x}{version:08x}.tmp` in the same directory — below
+the base, and never the index file itself — for every bucket and version. -/
+theorem index_tmp_confined (base : APath) (bucket version : Nat) (hb : dotdot ∉ base) :
+    indexTmpPath base bucket version =
+      base ++ [(indexFileName bucket version).take 10 ++ tmpExt] ∧
+    confined base (indexTmpPath base bucket version) ∧
+    indexTmpPath base bucket version ≠ base ++ [indexFileName bucket version] := by
+  have hshape : ∃ h : Str, h.length = 10 ∧ '.' ∉ h ∧ '/' ∉ h ∧
+      indexFileName bucket version = h ++ '.' :: ['i', 'd', 'x'] := by
+    refine ⟨hexEncode [bucket % 256] ++
+      hexEncode ((List.range 4).reverse.map fun i => version / 256 ^ i % 256), ?_, ?_, ?_, ?_⟩
+    · simp [hexEncode_length]
+    · intro hm
+      rcases List.mem_append.mp hm with hm | hm
+      · exact (hexEncode_chars _ '.' hm).2.1 rfl
+      · exact (hexEncode_chars _ '.' hm).2.1 rfl
+    · intro hm
+      rcases List.mem_append.mp hm with hm | hm
+      · exact (hexEncode_chars _ '/' hm).2.2 rfl
+      · exact (hexEncode_chars _ '/' hm).2.2 rfl
+    · simp [indexFileName]
+  obtain ⟨h, hlen, hdot, _, hname⟩ := hshape
+  have hne : h ≠ [] := by intro e; rw [e] at hlen; simp at hlen
+  have hnd : h ≠ dot := by intro e; rw [e] at hlen; simp [dot] at hlen
+  have hfn : indexFileName bucket version ≠ dotdot := by
+    rw [hname]; intro e; have := congrArg List.length e; simp [dotdot, hlen] at this
+  have heq : indexTmpPath base bucket version = base ++ [h ++ tmpExt] := by
+    unfold indexTmpPath withExtTmp withExtTmpRaw
+    rw [fileName_append_singleton base _ hfn]
+    simp only [hname, Cascette.Proofs.KeysTie.splitLastDot_append h ['i', 'd', 'x'] (by decide), hne,
+      hnd, if_false, List.dropLast_concat]
+  have htake : (indexFileName bucket version).take 10 = h := by
+    rw [hname, ← hlen]; simp
+  refine ⟨by rw [heq, htake], ?_, ?_⟩
+  · rw [heq]
+    apply confined_append base _ hb
+    simp only [List.mem_cons, List.not_mem_nil, or_false]
+    exact fun e => Cascette.Proofs.DiskFs.tmp_name_ne_dotdot h e.symm
+  · rw [heq, hname]
+    intro e
+    have := (List.append_inj' e rfl).2
+    simp [tmpExt] at this
+
 /-! ### the hypotheses are satisfiable by non-trivial instances -/
 
 example : wfKey (.ribbit ['v', '1', '/', 'w', 'o', 'w'] ['u', 's'] (some ['w', 'o', 'w'])) = true := by
@@ -561,5 +770,12 @@ example : validateEndpoint isAsciiAlnum ['v', '1', '/', 'w', 'o', 'w', '/', 'c',
 example : installDir [['r']] ['w', 'o', 'w'] = some [['r'], ['w', 'o', 'w']] := by decide
 example : archiveKeyOk ['0', '1', 'a', 'F'] = true := by decide
 example : dotdot ∉ segs (trimSlashes ['t', 'p', 'r', '/', 'w', 'o', 'w', '/']) := by decide
+example : colonFree (Ctor.ribbitWithProduct ['v', '1', '/', 'x'] ['u', 's'] ['w', 'o', 'w']).key := by
+  intro f hf; revert f hf; decide
+example : wfKey (Ctor.encodingWithPage (List.replicate 32 '0') 7 true).key = true := by decide
+example : Memo.fresh (Memo.new (.configNew ['a'] ['b'])).asCacheKey.2 :=
+  (memo_fresh _ (memo_new_fresh _)).2.1
+example : archiveKeyOk ['A', 'B', 'c', 'd', '0', '9'] = true := by decide
+example : ':' ∉ ['a', 'p', 'i'] := by decide
 
 end Cascette.Props.C20
